@@ -66,7 +66,7 @@ def _thms(ns, names):
 THEOREMS["C02"] = [("Flurry.Props.C02", _thms("C02", "step_refines len_spec seq_refines seq_refines_from first_key_kept try_insert_present"))]
 THEOREMS["C05"] = [("Flurry.Props.C05", _thms("C05", "iter_agrees iter_agrees_abs wf_reachable wf_reachable_new wf_reachable_collect wf_reachable_clone wf_unfold"))]
 THEOREMS["C13"] = [("Flurry.Props.C13", _thms("C13", "retain_eq_filter retain_force_eq_filter retain_removes_only_rejected retain_capacity wrappers_delegate_by_name"))]
-THEOREMS["C14"] = THEOREMS["C14"] + [("Flurry.Props.C14", _thms("C14", "never_shrinks removal_never_grows threshold_three_quarters grow_only_when grow_only_when_ins grow_only_when_uninit no_growth_below_threshold no_growth_with_room no_growth_with_room_bins no_growth_with_room_hash reserve_threshold_room no_growth_after_reserve no_growth_after_reserve_bins table_len_pow2 reachable_never_shrinks reachable_removal_never_grows reachable_table_len_pow2"))]
+THEOREMS["C14"] = THEOREMS["C14"] + [("Flurry.Props.C14", _thms("C14", "removals_pass_no_hint removal_calls_present never_shrinks removal_never_grows threshold_three_quarters grow_only_when grow_only_when_ins grow_only_when_uninit no_growth_below_threshold no_growth_with_room no_growth_with_room_bins no_growth_with_room_hash reserve_threshold_room no_growth_after_reserve no_growth_after_reserve_bins table_len_pow2 reachable_never_shrinks reachable_removal_never_grows reachable_table_len_pow2"))]
 THEOREMS["C18"] = [("Flurry.Props.C18", _thms("C18", "cip_panic_unchanged cip_panics_iff cip_no_write_before_callback retain_panic_prefix retain_loop_append after_panic_continues cip_panic_absMap"))]
 THEOREMS["C03"] = [("Flurry.Props.C01Source", ["Flurry.C01Source.every_bin_lock_is_rechecked", "Flurry.C01Source.lock_sites_present", "Flurry.C01Source.clear_waits_for_commit"]), ("Flurry.Props.C10", ["Flurry.C10.fill_then_forward_then_retire"]), ("Flurry.Lemmas.BinXCExamples", ["Flurry.Proto.BinXC.retired_unreachable", "Flurry.Proto.BinXC.retired_dead", "Flurry.Proto.BinXC.noWait_retires_reachable"]), ("Flurry.Props.C03", _thms("C03", "held_references_valid no_touch_after_free free_waits_for_holders retire_only_after_unlink unlinked_not_acquirable unprotected_guard_is_unsafe publication_needs_guard"))]
 THEOREMS["C04"] = [("Flurry.Lemmas.BinXCExamples", ["Flurry.Proto.BinXC.retired_dead", "Flurry.Proto.BinXC.binxc_linearizable_quiescent"]), ("Flurry.Props.C04", _thms("C04", "freed_at_most_once freed_only_after_guards freed_was_retired retired_is_eventually_freed refused_insert_changes_nothing"))]
@@ -251,6 +251,8 @@ CONC_TAGS = {
     "iter-lin": ["C07"],
     # mid-run probe: nobody holds a tree bin's write lock, yet its tree and its traversal list differ
     "tree-list": ["C06", "C01", "C07"],
+    # a call that only removes initiated a resize (finding F10)
+    "removal-grows": ["C14"],
 }
 
 
